@@ -362,3 +362,26 @@ package filecachepb
 //@   loop 1 invariant forall i int :: 0 <= i && i < len(pbProfiles) ==> pbWellFormed(pbProfiles[i])
 //@   loop 1 invariant forall j int :: 0 <= j && j <= #i ==> profiles[j] != nil && profiles[j].ID == pbProfiles[j].ProfileId && profiles[j].Deleted == pbProfiles[j].Deleted &&
 //@             profiles[j].FilteringEnabled == pbProfiles[j].FilteringEnabled && profiles[j].QueryLogEnabled == pbProfiles[j].QueryLogEnabled && profiles[j].IPLogEnabled == pbProfiles[j].IpLogEnabled
+//@ pred pbDevOK(x *Device) = x != nil && (x.Authentication != nil && isptr(x.Authentication.DohPasswordHash, AuthenticationSettings_PasswordHashBcrypt) ==> asptr(x.Authentication.DohPasswordHash, AuthenticationSettings_PasswordHashBcrypt) != nil)
+//@ func devicesFromProtobuf
+//@   property C14
+//@   requires forall i int :: 0 <= i && i < len(pbDevices) ==> pbDevOK(pbDevices[i])
+//@   modifies lastIPs
+//@   ensures every-stored-device-in-order-or-an-error: err == nil ==> len(devices) == len(pbDevices) && (forall i int :: 0 <= i && i < len(pbDevices) ==>
+//@             devices[i] != nil && devices[i].ID == pbDevices[i].DeviceId && devices[i].Name == pbDevices[i].DeviceName && devices[i].HumanIDLower == pbDevices[i].HumanIdLower &&
+//@             devices[i].FilteringEnabled == pbDevices[i].FilteringEnabled && devices[i].Auth != nil && devices[i].Auth.Enabled == (pbDevices[i].Authentication != nil))
+//@   ensures err != nil ==> devices == nil
+//@   loop 1 invariant -1 <= #i && #i < len(pbDevices) && len(devices) == #i + 1 && fresh(devices)
+//@   loop 1 invariant forall j int :: 0 <= j && j <= #i ==> devices[j] != nil && devices[j].ID == pbDevices[j].DeviceId && devices[j].Name == pbDevices[j].DeviceName && devices[j].HumanIDLower == pbDevices[j].HumanIdLower
+//@   loop 1 invariant forall j int :: 0 <= j && j <= #i ==> devices[j] != nil && devices[j].FilteringEnabled == pbDevices[j].FilteringEnabled && devices[j].Auth != nil && devices[j].Auth.Enabled == (pbDevices[j].Authentication != nil)
+
+// A cache that is read back has the stored version and synchronisation time,
+// and every stored profile and device.
+//@ pred pbCacheOK(fc *FileCache) = fc != nil && (forall i int :: 0 <= i && i < len(fc.Profiles) ==> pbWellFormed(fc.Profiles[i])) && (forall i int :: 0 <= i && i < len(fc.Devices) ==> pbDevOK(fc.Devices[i]))
+//@ func toInternal
+//@   property C14
+//@   requires pbCacheOK(fc)
+//@   modifies heap, lastIPs
+//@   ensures nothing-of-the-stored-cache-is-lost-on-the-way-back: err == nil ==> c != nil && c.Version == old(fc.Version) && c.SyncTime == tsTime[old(fc.SyncTime)] &&
+//@             len(c.Profiles) == old(len(fc.Profiles)) && len(c.Devices) == old(len(fc.Devices))
+//@   ensures err != nil ==> c == nil
